@@ -149,16 +149,18 @@ def build_part(part, repo):
         sig, body = extract_fn(repo, part["file"], part.get("container"), part["fn"], part.get("nth", 0))
         sig = _strip_comments_attrs(sig)
         body = _strip_comments_attrs(body)
+        # expected text fragments (checked on the ORIGINAL text): if the source no longer contains
+        # them the spec was written for different code -> undecided, never proved
+        for frag in part.get("expect", []):
+            if frag not in body and frag not in sig:
+                raise LostAnchor(f"expected fragment lost in {part['fn']}: {frag!r}")
+        if part.get("anchor_only"):
+            return ""
         if "new_sig" in part:
             sig = part["new_sig"]  # only parameter *names/receiver* may change; recorded in the evidence
         sig = apply_subst(sig, part.get("subst", []))
         body = apply_subst(body, part.get("subst", []))
         body = insert_hints(body, part.get("hints", []))
-        # expected text fragments: if the source no longer contains them the spec
-        # was written for different code -> undecided, never proved
-        for frag in part.get("expect", []):
-            if frag not in body and frag not in sig:
-                raise LostAnchor(f"expected fragment lost in {part['fn']}: {frag!r}")
         return f"{sig}\n{part.get('contract', '')}\n{body}\n"
     raise ValueError(kind)
 
